@@ -88,10 +88,25 @@ def run(ck: Check, prog: Program) -> None:
                                      f'of one method discards the patches of the endpoint\'s other methods'))
     # ---- RECORD-BEFORE-REPLY -----------------------------------------------------------------------
     stub_vars: Set[str] = set()
+    from ..util import canon_text as _ct
+
+    def in_calls_table(e: ast.expr) -> bool:
+        """`self.calls[endpoint]` (or a local alias of it)"""
+        return 'calls' in norm(e) or 'calls' in (_ct(mr, e) or '')
     for n in cfg.stmt_nodes():
-        if isinstance(n.ast, ast.Assign) and isinstance(n.ast.value, ast.Call) and isinstance(n.ast.value.func, ast.Attribute) and \
-                n.ast.value.func.attr == 'setdefault' and 'calls' in norm(n.ast.value.func.value):
+        a_ = n.ast
+        if not isinstance(a_, ast.Assign):
+            continue
+        v_ = a_.value
+        # the recorder is what the table of recorded calls holds for (version, method): taken with setdefault, or read by subscript
+        # (with the creation in the KeyError handler: `stub = table[key] = new`)
+        if isinstance(v_, ast.Call) and isinstance(v_.func, ast.Attribute) and v_.func.attr == 'setdefault' and in_calls_table(v_.func.value):
             stub_vars |= assigned_names(n)
+        elif isinstance(v_, ast.Subscript) and in_calls_table(v_.value) and all(isinstance(t, ast.Name) for t in a_.targets):
+            stub_vars |= assigned_names(n)
+        elif len(a_.targets) == 2 and any(isinstance(t, ast.Subscript) and in_calls_table(t.value) for t in a_.targets) and \
+                any(isinstance(t, ast.Name) for t in a_.targets):
+            stub_vars |= {t.id for t in a_.targets if isinstance(t, ast.Name)}
     if not stub_vars:
         # the table of recorded calls is filled, but what is called to record is not what the table holds (the result of
         # `calls[endpoint].setdefault(key, …)` is dropped): the recorder of a LATER patch for the same (endpoint, method) never gets there
